@@ -616,7 +616,10 @@ def _simulate(stmts, state, mod):
                         run(list(s.body) + stmts, st, ys, dict(subs, STEPS=sol))
                         run(list(s.orelse) + stmts, st, ys, subs)
                         return
-                raise AnalysisError("modulo_counter: condition '%s' inside a leaf not understood" % unparse(t))
+                # any other test: both outcomes are followed (each has to keep the invariant and yield a reduced value)
+                run(list(s.body) + stmts, st, ys, subs)
+                run(list(s.orelse) + stmts, st, ys, subs)
+                return
             elif isinstance(s, ast.Pass):
                 continue
             else:
